@@ -98,7 +98,8 @@ def program(draw):
                                                                        {"nbformat": "4", "cells": "none"}]))}])
         elif k == "close":
             reqs.append(["close", draw(st.sampled_from([{"exitCode": 0}, {"exitCode": 3}, {"exitCode": "2"}, {}, None, [1], "str",
-                                                        {"exitCode": None}, {"exitCode": 2.5}, {"exitCode": [1]}, {"exitCode": True}]))])
+                                                        {"exitCode": None}, {"exitCode": 2.5}, {"exitCode": [1]}, {"exitCode": True},
+                                                        {"exitCode": 256}, {"exitCode": -256}, {"exitCode": 2 ** 31}, {"exitCode": "512"}]))])
         elif k == "bad_json":
             reqs.append(["raw", draw(st.sampled_from(["diff", "merge", "store", "closetool"])), draw(st.sampled_from(["{not json", "", "[1,2", "ÿþ"]))])
         elif k == "missing_key":
@@ -385,6 +386,8 @@ async def _session(case, out, top, cwd):
                     # an exit code is an integer (the page sends a number; a numeric string is accepted too)
                     ec = rq[1]["exitCode"]
                     wellformed_body = (isinstance(ec, int) and not isinstance(ec, bool)) or (isinstance(ec, str) and ec.lstrip("-").isdigit())
+                    # ... that a process can exit with (256 would wrap to 0 = success)
+                    wellformed_body = wellformed_body and 0 <= int(ec) <= 255
                 if not wellformed_body:
                     # a close body that is not a JSON object is malformed: error status, no shutdown
                     if accepted or requested:
